@@ -81,6 +81,9 @@ func (c *escapeCallsiteInfoImpl) Resolve(callee *ssa.Function) dataflow.EscapeCa
 	}
 	nodes := calleeSummary.nodes
 	g := NewEmptyEscapeGraph(nodes)
+	// The callee reaches package-level variables and static functions through edges that exist only in its
+	// initial graph; without them every access to a global is a no-op in a call-site context.
+	addGlobalObjectNodes(callee, g)
 	// Copy over nodes into g that are reachable from the arguments.
 	mappedNodes := map[*Node]bool{}
 	var mapNode func(*Node, *Node)
